@@ -171,3 +171,144 @@ func impliedConds(cond ssa.Value, truth bool, depth int, visit func(c ssa.Value,
 
 // applyCmpExpanding guards against re-entering the expansion from within an expansion.
 var applyCmpExpanding bool
+
+// helperEdgeSelected: the conditional edge (cond, truth) tests the result of a helper of the module —
+// `if h.skip(x) {` (bool), or `if err := h.check(x); err != nil {` (error) — and every way the helper
+// can produce that result lies, inside the helper, behind an edge the rule's predicate selects (the
+// guard cut is continued into the callee, with its parameters bound to the call's arguments).
+func helperEdgeSelected(e Edge, cond ssa.Value, truth bool, pred EdgePred, depth int) bool {
+	if depth <= 0 || cond == nil {
+		return false
+	}
+	var cl *ssa.Call
+	wantNilErr := false // the edge says "the helper's error result is nil"
+	resIdx := 0
+	boolRes := false
+	if c := callValue(cond); c != nil {
+		cl, boolRes = c, true
+	} else if v, isNil, ok := nilCmp(cond, truth); ok {
+		switch x := stripNoSubst(v).(type) {
+		case *ssa.Call:
+			cl = x
+		case *ssa.Extract:
+			cl, _ = x.Tuple.(*ssa.Call)
+			resIdx = x.Index
+		}
+		if cl == nil || !isNil {
+			return false
+		}
+		wantNilErr = true
+	} else if ex, ok := stripNoSubst(cond).(*ssa.Extract); ok {
+		// v, ok := helper(); if ok {
+		cl, _ = ex.Tuple.(*ssa.Call)
+		resIdx = ex.Index
+		boolRes = true
+	}
+	if cl == nil || cl.Call.IsInvoke() {
+		return false
+	}
+	f := staticCallee(&cl.Call)
+	if f == nil || f.Blocks == nil || !strings.HasPrefix(fnPkgPath(f), Mod) || len(f.Blocks) > 60 {
+		return false
+	}
+	res := f.Signature.Results()
+	if resIdx >= res.Len() {
+		return false
+	}
+	rt := res.At(resIdx).Type()
+	if boolRes && rt.Underlying().String() != "bool" {
+		return false
+	}
+	if wantNilErr && !isErrorType(rt) {
+		return false
+	}
+	saved := activeSubst
+	merged := map[*ssa.Parameter]ssa.Value{}
+	for k, v := range saved {
+		merged[k] = v
+	}
+	for i, p := range f.Params {
+		if i < len(cl.Call.Args) {
+			merged[p] = cl.Call.Args[i]
+		}
+	}
+	activeSubst = merged
+	defer func() { activeSubst = saved }()
+	n := 0
+	for _, r := range returnsOf(f) {
+		if r.Block() == f.Recover || len(r.Results) <= resIdx {
+			continue
+		}
+		rv := retVal(r, resIdx)
+		if boolRes {
+			if b, isC := constBool(stripNoSubst(rv)); isC {
+				if b != truth {
+					continue
+				}
+			} else if pred(e, rv, truth) || phiTruthGuarded(e, rv, truth, pred, depth) {
+				n++
+				continue
+			}
+		} else { // error result must be nil
+			if !isNilConst(stripNoSubst(rv)) {
+				if !mayBeNilError(rv) {
+					continue // definitely an error: not a "nil" return
+				}
+			}
+		}
+		n++
+		g, ns := mustCrossDepth(r, pred, depth-1)
+		if !(g && ns > 0) {
+			return false
+		}
+	}
+	return n > 0
+}
+
+
+// phiTruthGuarded: v is a boolean phi (the result of && / || chains); every way it can become `truth`
+// is selected by pred: an incoming constant `truth` arrives over a conditional edge that pred selects
+// (or whose source block is already cut off), an incoming computed value is itself accepted by pred.
+func phiTruthGuarded(e Edge, v ssa.Value, truth bool, pred EdgePred, depth int) bool {
+	ph, ok := stripNoSubst(v).(*ssa.Phi)
+	if !ok {
+		return false
+	}
+	n := 0
+	for i, ev := range ph.Edges {
+		pb := ph.Block().Preds[i]
+		if b, isC := constBool(stripNoSubst(ev)); isC {
+			if b != truth {
+				continue
+			}
+			n++
+			okEdge := false
+			if _, isIf := lastInstr(pb).(*ssa.If); isIf {
+				for s, succ := range pb.Succs {
+					if succ == ph.Block() {
+						c2, t2 := (Edge{pb, s}).Cond()
+						if c2 != nil && pred(e, c2, t2) {
+							okEdge = true
+						}
+					}
+				}
+			}
+			if !okEdge {
+				g, ns := mustCrossDepth(lastInstr(pb), pred, depth-1)
+				okEdge = g && ns > 0
+			}
+			if !okEdge {
+				return false
+			}
+			continue
+		}
+		n++
+		if !(pred(e, ev, truth) || phiTruthGuarded(e, ev, truth, pred, depth-1)) {
+			g, ns := mustCrossDepth(lastInstr(pb), pred, depth-1)
+			if !(g && ns > 0) {
+				return false
+			}
+		}
+	}
+	return n > 0
+}
